@@ -249,6 +249,8 @@ def truth(x):
         return x != 0
     if isinstance(x, (Tup, tuple)):
         return z3.BoolVal(len(x) > 0)
+    if isinstance(x, SeqV):
+        return lit(x.length) > 0                 # a list is true when it is not empty
     raise Undecided(f"truthiness of {type(x).__name__}")
 
 
@@ -926,7 +928,8 @@ class Exec:
             if isinstance(sl, ast.Slice):
                 lo = None if sl.lower is None else z3.simplify(lit(self.ev(sl.lower, st))).as_long()
                 hi = None if sl.upper is None else z3.simplify(lit(self.ev(sl.upper, st))).as_long()
-                return Tup(v[lo:hi])
+                step = None if sl.step is None else z3.simplify(lit(self.ev(sl.step, st))).as_long()
+                return Tup(v[lo:hi:step])
             i = z3.simplify(lit(self.ev(sl, st)))
             if z3.is_int_value(i):
                 k = i.as_long()
@@ -1038,11 +1041,24 @@ class Exec:
     def ev_ListComp(self, e, st):
         """[expr for x in seq] over a symbolic-length list: a symbolic sequence of the same length whose element i is expr with x = seq[i]
         (the element expression is evaluated when an element is asked for; it must not write)"""
-        if len(e.generators) != 1 or e.generators[0].ifs or e.generators[0].is_async or not isinstance(e.generators[0].target, ast.Name):
+        if len(e.generators) != 1 or len(e.generators[0].ifs) > 1 or e.generators[0].is_async or not isinstance(e.generators[0].target, ast.Name):
             raise Undecided("list comprehension other than [expr for name in sequence]")
         gen = e.generators[0]
         src = self.ev(gen.iter, st)
         from . import objects
+        if gen.ifs:
+            # [name for name in seq if cond]: *some* sub-sequence of the sequence - its length m is between 0 and len(seq) and is 0 exactly when no element
+            # satisfies the condition; which elements it holds is not modelled (they are opaque values of the position)
+            if not (isinstance(src, SeqV) and isinstance(e.elt, ast.Name) and e.elt.id == gen.target.id):
+                raise Undecided("filtering comprehension other than [x for x in <sequence of symbolic length> if cond]")
+            i = z3.Int(f"i!filter{len(self.obls)}_{getattr(e, 'lineno', 0)}")
+            st2 = st.fork()
+            st2.env[gen.target.id] = src.getter(self, st2, i)
+            cond = truth(self.ev(gen.ifs[0], st2))
+            m = self.fresh("n_selected", I)
+            st.pc.append(z3.And(m >= 0, m <= lit(src.length), (m == 0) == z3.ForAll([i], z3.Implies(z3.And(i >= 0, i < lit(src.length)), z3.Not(cond)))))
+            picked = z3.Function(f"selected_item_{m}", I, I)
+            return SeqV(m, lambda ex_, st_, k, _f=picked: _f(lit(k)), owner="fresh", name="filtered")
         if isinstance(src, objects.SLRef):
             n = st.heap[src.sid].length
             elem = lambda ex_, st_, i: objects.symlist_get(ex_, st_, src, i)
@@ -1874,6 +1890,9 @@ class Exec:
         if n.exc is None:
             raise Undecided("bare raise")
         exc = n.exc.func.id if isinstance(n.exc, ast.Call) and isinstance(n.exc.func, ast.Name) else (n.exc.id if isinstance(n.exc, ast.Name) else None)
+        if exc is None and isinstance(n.exc, ast.Call) and isinstance(n.exc.func, ast.Attribute) and isinstance(n.exc.func.value, ast.Name) \
+                and n.exc.func.attr[:1].isupper() and n.exc.func.attr.endswith(("Error", "Exception", "Warning")):
+            exc = n.exc.func.attr                   # raise module.SomeException(...): named by its class (the message is not evaluated)
         if exc is None:
             raise Undecided("raise of expression")
         if isinstance(n.exc, ast.Name) and not (exc[:1].isupper() and exc.endswith(("Error", "Exception", "Warning"))):
